@@ -29,7 +29,7 @@ End dd_induction.
 Lemma try_convert_no_panic T v : is_panic (try_convert T v) = false.
 Proof.
   unfold try_convert, opt_bscalar, is_f64_val, is_i64_val.
-  destruct T as [t|id e|id|id|id kd [[eid ekd]|]]; destruct v as [|t0 sv|id0 tbl|bs|id0 kd0 conv0]; cbn;
+  destruct T as [t|id e|id|id|id kd [[eid ekd]|]|id]; destruct v as [|t0 sv|id0 tbl|bs|id0 kd0 conv0]; cbn;
     try destruct sv; cbn;
     repeat match goal with
     | |- context [if ?b then _ else _] => destruct b; cbn
